@@ -922,7 +922,7 @@ func c09Stage(c0 *Ctx) {
 		"stage S(src py \"x\",) using (threads = 0.065, mem_gb = 255.999,)",
 		"stage S(src py \"x\",) using (threads = -0.0,)", // roundUpTo maps the negative zero to 0 (clause `range` of HOK)
 		"stage S(src py \"x\",) using (threads = 1e6, vmem_gb = 1e-9,)",
-		"stage S(src py \"x\",) using (mem_gb = 0.5000000001,)",                       // float32: 512 MB, exactly: 513 MB
+		"stage S(src py \"x\",) using (mem_gb = 0.5000000001,)",                     // float32: 512 MB, exactly: 513 MB
 		"stage S(src py \"x\",) using (mem_gb = 256.04296875, vmem_gb = -256.042,)", // F29: beyond stageMB32Valid
 	} {
 		accept(c09sDump(t), t)
